@@ -9,7 +9,9 @@
 #include <givaro/givintfactor.h>
 #include <givaro/givrandom.h>
 #include <givaro/givprimes16.h>
+#include <givaro/givrandom.h>
 #include <csetjmp>
+#include <sstream>
 #include <csignal>
 #include <list>
 #include <string>
@@ -19,6 +21,8 @@
 using namespace Givaro;
 
 static IntPrimeDom IP;
+static FermatDom FD;
+static GivRandom* GENp = nullptr;      // generator handed to Lenstra / Pollard / Miller / Lehmann
 static IntFactorDom<GivRandom>* IFp = nullptr;
 static sigjmp_buf JB;
 static volatile sig_atomic_t armed = 0;
@@ -130,6 +134,118 @@ static void run_setl(const Integer& n, unsigned long loops) {
     }
 }
 
+
+// strict parser of IntFactorDom::write's text:  ['-'] ( NUM | FACT (" * " FACT)* ),  FACT = NUM ['^' NUM]   (decimal)
+static bool parse_write(const std::string& t, bool& neg, std::vector<std::pair<Integer, Integer>>& fs) {
+    size_t i = 0;
+    neg = false; fs.clear();
+    if (i < t.size() && t[i] == '-') { neg = true; ++i; }
+    auto num = [&](Integer& v) -> bool {
+        size_t j = i;
+        while (j < t.size() && t[j] >= '0' && t[j] <= '9') ++j;
+        if (j == i || (t[i] == '0' && j > i + 1)) return false;
+        v = Integer(t.substr(i, j - i).c_str());
+        i = j;
+        return true;
+    };
+    for (;;) {
+        Integer p, e(1);
+        if (!num(p)) return false;
+        if (i < t.size() && t[i] == '^') { ++i; if (!num(e)) return false; if (e < 2) return false; }   // "^1" is never printed
+        fs.push_back(std::make_pair(p, e));
+        if (i == t.size()) return true;
+        if (t.compare(i, 3, " * ") != 0) return false;
+        i += 3;
+    }
+}
+
+// multi-argument cases:  "<key> a0 a1 … = …"
+static std::string callv(const std::string& key, const std::vector<Integer>& a) {
+    IntFactorDom<GivRandom>& IF = *IFp;
+    GivRandom& gen = *GENp;
+    const Integer& n = a[0];
+    if (key == "lenstra") {        // Lenstra(gen, g, n, B1, curves): a divisor, or -1 (and a message on stderr) when every curve fails
+        Integer g(-7);
+        std::streambuf* old = std::cerr.rdbuf(nullptr);
+        IF.Lenstra(gen, g, n, a[1], (unsigned long)(uint64_t)a[2]);
+        std::cerr.rdbuf(old);
+        return hz(g);
+    }
+    if (key == "pollard") { Integer g(-7); IF.Pollard(gen, g, n, (unsigned long)(uint64_t)a[1]); return hz(g); }
+    if (key == "fermat") { Integer f(-7); FD.fermat(f, (size_t)(uint64_t)n); return hz(f); }
+    if (key == "pepin") { return FD.pepin((size_t)(uint64_t)n) ? "1" : "0"; }
+    if (key == "isprimer") return vp::hex_ll(IP.isprime(n, (int)(int64_t)a[1]));
+    if (key == "localprime") return vp::hex_ll(IP.local_prime(n, (int)(int64_t)a[1]));
+    if (key == "tabule") return vp::hex_ll(IP.isprime_Tabule((int)(int64_t)n));
+    if (key == "tabule2") return vp::hex_ll(IP.isprime_Tabule2((int)(int64_t)n));
+    if (key == "miller") return vp::hex_ull(IP.Miller(gen, n));                       // the base is drawn inside (Integer::random, global GMP state):
+    if (key == "lehmann") { Integer r(-7); IP.test_Lehmann(gen, r, n); return hz(r); }   // not observable, so these are certified one-sidedly
+    if (key == "lehmannb") return vp::hex_ll(IP.Lehmann(gen, n));
+    if (key == "write") {          // write(o, Lf, n) and write(o, n): text parsed strictly, numbers handed to the driver
+        std::ostringstream o1, o2;
+        std::vector<Integer> Lf;
+        IF.write(o1, Lf, n);
+        IF.write(o2, n);
+        bool neg, neg2; std::vector<std::pair<Integer, Integer>> fs, fs2;
+        if (!parse_write(o1.str(), neg, fs) || !parse_write(o2.str(), neg2, fs2)) return "BADFMT";
+        std::string s = std::string(neg ? "1" : "0") + " " + vp::hex_ull(fs.size());
+        for (auto& f : fs) s += " " + hz(f.first) + " " + hz(f.second);
+        s += " " + vp::hex_ull(Lf.size());
+        for (auto& f : Lf) s += " " + hz(f);
+        s += std::string(" ") + (neg2 ? "1" : "0") + " " + vp::hex_ull(fs2.size());
+        for (auto& f : fs2) s += " " + hz(f.first) + " " + hz(f.second);
+        return s;
+    }
+    if (key == "erat") {           // Erathostene(Lf, p): the sieve variant ("valid for p < BOUNDARY_factor")
+        std::vector<Integer> Lf;
+        std::streambuf* old = std::cerr.rdbuf(nullptr);
+        IF.Erathostene(Lf, n);
+        std::cerr.rdbuf(old);
+        std::string s = vp::hex_ull(Lf.size());
+        for (auto& f : Lf) s += " " + hz(f);
+        return s;
+    }
+#ifdef GIVARO_LENSTRA
+    if (key == "factorL") { Integer r(-7); std::streambuf* old = std::cerr.rdbuf(nullptr); IF.factor(r, n); std::cerr.rdbuf(old); return hz(r); }
+    if (key == "setL") {
+        std::vector<Integer> Lf; std::vector<unsigned long> Lo;
+        std::streambuf* old = std::cerr.rdbuf(nullptr);
+        bool c = IF.set(Lf, Lo, n);
+        std::cerr.rdbuf(old);
+        std::string s = std::string(c ? "1" : "0") + " " + vp::hex_ull(Lf.size());
+        for (size_t i = 0; i < Lf.size(); ++i) s += " " + hz(Lf[i]) + " " + vp::hex_ull(i < Lo.size() ? Lo[i] : 0);
+        return s;
+    }
+#endif
+    return "NOFUNC";
+}
+
+static void runv(const std::string& key, const std::vector<Integer>& a) {
+    std::string head = key;
+    for (auto& x : a) head += " " + hz(x);
+    head += " = ";
+    int why = sigsetjmp(JB, 1);
+    if (why == 0) {
+        armed = 1;
+        alarm(CASE_TIMEOUT);
+        std::string r = callv(key, a);
+        alarm(0);
+        armed = 0;
+        fputs((head + r + "\n").c_str(), stdout);
+        if ((++NLINES & 1023) == 0) fflush(stdout);
+    } else {
+        armed = 0;
+        alarm(0);
+        fputs((head + (why == 2 ? "SIGNAL" : "TIMEOUT") + "\n").c_str(), stdout);
+        fflush(stdout);
+    }
+}
+static bool is_vkey(const std::string& k) {
+    for (const char* v : {"lenstra", "pollard", "fermat", "pepin", "isprimer", "localprime", "tabule", "tabule2", "miller", "lehmann", "lehmannb",
+                          "write", "erat", "factorL", "setL"}) if (k == v) return true;
+    return false;
+}
+
 // ------------------------------------------------------------------------------------------------------------------
 // generators
 // ------------------------------------------------------------------------------------------------------------------
@@ -216,7 +332,7 @@ static void gen(const std::string& tier, uint64_t seed) {
     }
     for (size_t i = 0; i < NSP; ++i) for (unsigned e : {1u, 2u, 3u, 7u}) fa.push_back(pw(Integer((uint64_t)SP[i]), e));   // prime powers
     for (int i = 0; i < (th ? 300 : 60); ++i) {        // semiprimes p*q, p^2*q: factors of 17..32 bits; thorough: ten with factors up to 40 bits (n up to 2^80)
-        unsigned span = (th && i < 10) ? 24 : 16;
+        unsigned span = (th && i < 4) ? 24 : 16;
         unsigned b1 = 17 + (unsigned)g.below(span), b2 = 17 + (unsigned)g.below(span);
         Integer p = gmp_nextprime(rnd_bits(g, b1)), q = gmp_nextprime(rnd_bits(g, b2));
         fa.push_back(p * q);
@@ -228,17 +344,20 @@ static void gen(const std::string& tier, uint64_t seed) {
     fa.push_back(Integer("1208907372870555465154561"));
     size_t nf = fa.size();
     for (size_t i = 40; i < nf; i += 7) fa.push_back(-fa[i]);
+    // numbers above 2^68 (factors up to 40 bits: ~2^20 rho steps per factorisation) go through set / factor / iffactorprime only
+    auto heavy = [](const Integer& n) { return abs(n) > pw(Integer(2), 68); };
     for (auto& n : fa) {
         run("set", n);
         run("factor", n);
         run("iffactorprime", n);
+        if (heavy(n)) continue;
         if (n != 1) run("primefactor", n);      // primefactor(1) has no answer: `while (iffactorprime(r,1)==1 && !isprime(1)) {}` (reported separately)
         run("divisors", n);
         run("set1", n);
     }
     // the loops-bounded variant: small bounds make Pollard give up (partial contract), large ones complete
     for (size_t i = 0; i < fa.size(); i += (th ? 3 : 11))
-        for (unsigned long loops : {1UL, 2UL, 3UL, 7UL, 40UL, 5000UL}) run_setl(fa[i], loops);
+        for (unsigned long loops : {1UL, 2UL, 3UL, 7UL, 40UL, 5000UL}) if (!heavy(fa[i])) run_setl(fa[i], loops);
     fflush(stdout);
     // ---- prime-power test
     std::vector<Integer> pp;
@@ -258,7 +377,71 @@ static void gen(const std::string& tier, uint64_t seed) {
     }
     for (auto& n : pp) run("isprimepower", n);
     fflush(stdout);
+    // ---- Fermat numbers and Pepin's test
+    for (unsigned n = 0; n <= (th ? 14u : 12u); ++n) { runv("fermat", {Integer((uint64_t)n)}); runv("pepin", {Integer((uint64_t)n)}); }
+    // ---- the table searches called directly (public members), inside their domains
+    for (long n = 0; n < 32768; n += (th ? 1 : 7)) runv("tabule", {Integer((int64_t)n)});
+    for (long n = 32768; n < 65536; n += (th ? 1 : 7)) runv("tabule2", {Integer((int64_t)n)});
+    // ---- isprime(n, r) / local_prime(n, r) for the repetition counts the API accepts; Miller, Lehmann with the base they draw
+    const long REPS[] = {1, 2, 5, 10, 25, 50};
+    for (size_t i = 0; i < big.size(); i += (th ? 5 : 37))
+        for (long r : REPS) {
+            runv("isprimer", {big[i], Integer((int64_t)r)});
+            if (big[i] >= 65536) runv("localprime", {big[i], Integer((int64_t)r)});
+        }
+    for (long n = -3; n < 300; ++n) for (long r : {1L, 25L}) runv("isprimer", {Integer((int64_t)n), Integer((int64_t)r)});
+    for (long n = 2; n < 60; ++n) for (int rep = 0; rep < 40; ++rep) { runv("miller", {Integer((int64_t)n)}); runv("lehmann", {Integer((int64_t)n)}); }   // small n: every base gets drawn
+    for (long n = -3; n < (th ? 3000 : 1200); ++n) for (const char* k : {"miller", "lehmann", "lehmannb"}) {
+        if (n < 2 && std::string(k) == "lehmann") continue;      // test_Lehmann draws a base below n: meaningless (division by zero) for n < 1
+        runv(k, {Integer((int64_t)n)});
+    }
+    for (size_t i = 0; i < big.size(); i += (th ? 3 : 17)) for (const char* k : {"miller", "lehmann", "lehmannb"}) runv(k, {big[i]});
+    fflush(stdout);
+    // ---- Pollard and Lenstra called directly; write; the sieve variant
+    for (size_t i = 0; i < fa.size(); i += (th ? 2 : 5)) {
+        const Integer& n = fa[i];
+        if (heavy(n)) continue;
+        // Pollard directly, on the arguments `factor` hands it (no prime factor below 100) and on n < 3 / primes: with a small prime
+        // factor the rho iteration x^2+1 can fail for every start (n = 4, 25) and the retry recursion never ends (stack overflow) --
+        // outside what factor() ever passes; reported in the notes of the check, not exercised
+        {
+            Integer g1, g2;
+            bool dom = n < 3 || (isOne(gcd(g1, n, Integer(223092870))) && isOne(gcd(g2, n, Integer("10334565887047481278774629361"))));
+            if (dom) for (unsigned long loops : {0UL, 1UL, 3UL, 100UL}) runv("pollard", {n, Integer((uint64_t)loops)});
+        }
+        runv("lenstra", {n, Integer(2000), Integer(8)});
+        if ((i % 3) == 0) runv("lenstra", {n, Integer(30), Integer(2)});       // a bound so small that the documented failure value is produced
+        runv("write", {n});
+    }
+    for (int i = 0; i < (th ? 200 : 40); ++i) {        // Lenstra on semiprimes / prime squares / primes of 20..80 bits
+        unsigned b1 = 10 + (unsigned)g.below(31), b2 = 10 + (unsigned)g.below(31);
+        Integer p = gmp_nextprime(rnd_bits(g, b1)), q = gmp_nextprime(rnd_bits(g, b2));
+        runv("lenstra", {p * q, Integer(5000), Integer(10)});
+        if ((i & 3) == 0) { runv("lenstra", {p * p, Integer(5000), Integer(10)}); runv("lenstra", {p, Integer(5000), Integer(10)}); }
+    }
+    for (long n = -30; n < (th ? 30000 : 6000); ++n) runv("erat", {Integer((int64_t)n)});
+    fflush(stdout);
 }
+
+#ifdef GIVARO_LENSTRA
+// second build: `factor` routes through Lenstra (default B1 = 10^7, 30 curves); only the factor-driven lines, under their own keys
+static void genL(const std::string& tier, uint64_t seed) {
+    const bool th = (tier == "thorough");
+    vp::Rng g(seed * 0x9E3779B97F4A7C15ULL + 99);
+    CASE_TIMEOUT = th ? 120 : 40;
+    std::vector<Integer> fa;
+    for (long n = -20; n < (th ? 3000 : 600); ++n) fa.push_back(Integer((int64_t)n));
+    for (auto s : CARMICHAEL) fa.push_back(Integer(s));
+    for (int i = 0; i < (th ? 120 : 25); ++i) {
+        unsigned b1 = 10 + (unsigned)g.below(23), b2 = 10 + (unsigned)g.below(23);
+        Integer p = gmp_nextprime(rnd_bits(g, b1)), q = gmp_nextprime(rnd_bits(g, b2));
+        fa.push_back(p * q); fa.push_back(p);
+        if ((i & 3) == 0) { fa.push_back(p * p); fa.push_back(p * q * Integer(101)); }
+    }
+    for (auto& n : fa) { runv("factorL", {n}); runv("setL", {n}); }
+    fflush(stdout);
+}
+#endif
 
 int main(int argc, char** argv) {
     struct sigaction sa;
@@ -271,11 +454,19 @@ int main(int argc, char** argv) {
     uint64_t seed = argc >= 3 ? strtoull(argv[2], nullptr, 10) : 1;
     IntFactorDom<GivRandom> IF(GivRandom(seed + 1000));     // deterministic generator state
     IFp = &IF;
+    GivRandom GEN(seed + 2000);
+    GENp = &GEN;
+    Integer::seeding((uint64_t)(seed + 3000));       // Integer::random (used by Pollard, Lenstra, Miller, Lehmann) draws from a global GMP state
+#ifdef GIVARO_LENSTRA
+    if (argc >= 3) { genL(argv[1], seed); return 0; }
+#else
     if (argc >= 3) { gen(argv[1], seed); return 0; }
+#endif
     vp::Args a;
     while (vp::read_line(std::cin, a)) {
         if (a.tok[0] == "p16count") { run("p16count", Integer(0)); continue; }
         if (a.tok.size() < 2) { vp::emit(a, "NOFUNC"); continue; }
+        if (is_vkey(a.tok[0])) { std::vector<Integer> v; for (size_t i = 1; i < a.tok.size(); ++i) v.push_back(fromhex(a.tok[i])); runv(a.tok[0], v); fflush(stdout); continue; }
         if (a.tok[0] == "setl" && a.tok.size() >= 3) { run_setl(fromhex(a.tok[1]), strtoul(a.tok[2].c_str(), nullptr, 16)); fflush(stdout); continue; }
         run(a.tok[0], fromhex(a.tok[1]));
         fflush(stdout);
